@@ -305,10 +305,10 @@ func checkC03(c c03Case, _ *kit.Collector) kit.Result {
 			if d := diffFull(r.outcome(), r1.outcome()); d != "" {
 				res.Err = kit.Fail("%s: the value decoded first changed while other input was decoded into other receivers: at %s (fresh decode vs. the earlier value)", c.Target, d)
 				// 5. String is total on success (last: some String methods go through Encode, which may normalise the value)
-	if ok1 {
-		r1.str()
-	}
-	return res
+				if ok1 {
+					r1.str()
+				}
+				return res
 			}
 		}
 	}
